@@ -83,6 +83,30 @@ proof!(c14_string_any_b2, 8, { string_any::<2>() });
 proof!(c14_string_any_b3, 10, { string_any::<3>() });
 proof!(c14_string_any_b4, 12, { string_any::<4>() });
 
+/// Classic invalid UTF-8 shapes as concrete inputs (constant-folded by the solver): a
+/// decoder that is lenient about any of them tends to slice or copy with a data-dependent
+/// length, which makes the fully symbolic `string_any` harnesses run out of memory instead
+/// of answering.
+fn string_invalid<const B: usize>(raw: [u8; B]) {
+    let mut m = BytesMut::from(&raw[..]);
+    let r = StringCodec.decode(&mut m);
+    assert!(r.is_err(), "invalid UTF-8 is reported as an error, never as a value");
+    core::mem::forget(r);
+}
+proof!(c14_string_invalid_menu, 12, {
+    match kani::any::<u8>() % 9 {
+        0 => string_invalid([0xC3u8]),                   // truncated 2-byte sequence
+        1 => string_invalid([b'a', 0xE2, 0x82]),         // truncated 3-byte sequence after ASCII
+        2 => string_invalid([0xF0u8, 0x9F, 0xA6]),       // truncated 4-byte sequence
+        3 => string_invalid([0x80u8]),                   // lone continuation byte
+        4 => string_invalid([0xC0u8, 0x80]),             // overlong encoding
+        5 => string_invalid([0xEDu8, 0xA0, 0x80]),       // surrogate
+        6 => string_invalid([0xFFu8]),                   // never valid
+        7 => string_invalid([b'o', b'k', 0xC3, b'(']),   // bad continuation in the middle
+        _ => string_invalid([0xF4u8, 0x90, 0x80, 0x80]), // above U+10FFFF
+    }
+});
+
 fn bytes_rt<const B: usize>() {
     let raw: [u8; B] = kani::any();
     let enc = match BytesCodec.encode(raw.to_vec()) {
